@@ -72,6 +72,9 @@ pub fn transport_ops(mode: Mode, oneway: bool, dirs: &[Side], plens: &[usize]) -
 
 pub fn full_session_ops(proto: &Proto, hs_plens: &[usize], mode: Mode, dirs: &[Side], t_plens: &[usize]) -> Vec<Op> {
     let mut ops = handshake_ops(proto, hs_plens);
+    // the raw split keys (risky-raw-split API) of both sides, just before conversion
+    ops.push(Op::RawSplit { side: Side::I });
+    ops.push(Op::RawSplit { side: Side::R });
     ops.extend(convert_ops(mode));
     ops.extend(transport_ops(mode, proto.pattern.is_oneway(), dirs, t_plens));
     ops
